@@ -48,6 +48,18 @@ impl<'a> Mon<'a> {
         }
         let (td, header) = w.c().stored_tip();
         let hash = header.calc_header_hash();
+        // the property speaks about what the RPC get_tip_header returns: it must be the stored tip (also get_header of it, if served)
+        {
+            use crate::service::ChainRpc;
+            let rpc = w.c().rpc_chain();
+            if let Ok(view) = rpc.get_tip_header() {
+                let h: Byte32 = view.hash.pack();
+                if h != hash && !self.violated {
+                    self.violated = true;
+                    self.out.violation("C12.R1", "C12|rpc-tip-differs-from-stored-tip", json!({"scenario": self.desc, "cause": cause, "rpc": hex(h.as_slice()), "stored": hex(hash.as_slice())}), self.k);
+                }
+            }
+        }
         if (td.clone(), hash.clone()) == self.last_seen {
             return;
         }
